@@ -14,74 +14,78 @@ LEVEL = "other"
 
 
 def check_pair(cx, chk, inst):
+    """Every rule function brackets its whole computation by exactly one print_trace_start / print_trace_result pair on every
+    path - read off the wrapper summaries (wrapsem.RuleView): on every returning path the first event is the entry call with the
+    entry state, the last event is the exit call with the value that is returned, and there is no other entry / exit call."""
+    from . import wrapsem
+    P1 = mir.mk("param", 1)
+    views = wrapsem.rule_views(cx)
     traced = 0
     untraced = []
+    rule_paths = set(inst.rule_fns.values())
+    # tracer entry / exit calls outside rule functions
     for p, f in sorted(inst.fns.items()):
-        if "mir" not in f:
+        if "mir" not in f or any(p == rp or p.startswith(rp + "::") for rp in rule_paths):
             continue
         b = cx.body(inst.crate, p)
-        starts, results = [], []
         for i, t in b.calls():
-            nm = common.is_tracer_call(t["func"])
-            if nm == "print_trace_start":
-                starts.append((i, t))
-            elif nm == "print_trace_result":
-                results.append((i, t))
+            if common.is_tracer_call(t["func"]) in ("print_trace_start", "print_trace_result"):
+                rest = p[len(inst.prefix) + 2:]
+                chk.violation("C19.pair", "%s/%s nested-trace-call" % (inst.name, rest),
+                              "trace entry/exit call outside a rule function (inside %s): entries and exits can no longer be paired per rule" % rest, cx.site(b, i))
+    for rule, p in sorted(inst.rule_fns.items()):
+        v = views.get((inst.name, rule))
         rest = p[len(inst.prefix) + 2:]
-        is_rule_fn = "::" not in rest and f["kind"] == "Fn" and rest.startswith("parse_")
         tag = "%s/%s" % (inst.name, rest)
-        if not starts and not results:
-            if is_rule_fn:
-                untraced.append(rest)
+        b = cx.body(inst.crate, p)
+        has_any = any(common.is_tracer_call(t["func"]) in ("print_trace_start", "print_trace_result")
+                      for q in inst.fns if (q == p or q.startswith(p + "::")) and "mir" in inst.fns[q] for _, t in cx.body(inst.crate, q).calls())
+        if not has_any:
+            untraced.append(rest)
             continue
-        if not is_rule_fn:
-            chk.violation("C19.pair", "%s nested-trace-call" % tag,
-                          "trace entry/exit call outside a rule function (inside %s): entries and exits "
-                          "can no longer be paired per rule" % rest, cx.site(b))
+        if v is None or v.sm is None:
+            chk.violation("C19.pair", "%s unsummarised" % tag, "a traced rule function could not be summarised: %s" % (v.problem if v else "?"), cx.site(b))
             continue
-        if len(starts) != 1 or len(results) != 1:
-            chk.violation("C19.pair", "%s count start=%d result=%d" % (tag, len(starts), len(results)),
-                          "rule function has %d trace entries and %d trace exits" % (len(starts), len(results)),
-                          cx.site(b))
-            continue
-        S, R = starts[0][0], results[0][0]
         problems = []
-        if not b.dominates(S, R):
-            problems.append("entry does not dominate exit")
-        if not b.postdominates(R, 0):
-            # find a return path that avoids R
-            good, path = b.must_pass(0, lambda i: i == R)
-            problems.append("a normal return bypasses the trace exit: %s" % (
-                " -> ".join("bb%d" % x for x in (path or []))))
-        if S in b.reachable_from(b.blocks[S]["term"]["target"]) if b.blocks[S]["term"]["target"] is not None else False:
-            problems.append("trace entry inside a loop")
-        if R in (b.reachable_from(b.blocks[R]["term"]["target"]) if b.blocks[R]["term"]["target"] is not None else ()):
-            problems.append("trace exit inside a loop")
-        # all other work is inside the bracket
-        for i, t in b.calls():
-            if i in (S, R):
+        for leaf in v.leaves:
+            evs = []
+            for idx, ev in enumerate(leaf.trace):
+                t = ev[0]
+                if t[0] != "call":
+                    continue
+                nm = last(t[1])
+                if nm in ("print_trace_start", "print_trace_result", "print_informative") and ("ParseTracer" in t[1] or "Tracer" in t[1]):
+                    evs.append((idx, nm, t))
+            work = [idx for idx, ev in enumerate(leaf.trace) if ev[0][0] == "call" and last(ev[0][1]) not in ("print_trace_start", "print_trace_result", "print_informative")
+                    and not (last(ev[0][1]) in ("clone",))]
+            starts = [(i, t) for (i, nm, t) in evs if nm == "print_trace_start"]
+            results = [(i, t) for (i, nm, t) in evs if nm == "print_trace_result"]
+            if len(starts) != 1:
+                problems.append("count start=%d" % len(starts))
                 continue
-            if not b.dominates(S, i):
-                problems.append("call %s not preceded by the trace entry" % b.call_name(t))
-            if not (R in b.reachable_from(i)) or not b.postdominates(R, i):
-                problems.append("call %s can return without the trace exit" % b.call_name(t))
-        # the value returned is the value shown to the tracer
-        rt = results[0][1]
-        shown = strip(b.expr_op(rt["args"][1])) if len(rt["args"]) > 1 else None
-        ret_defs = b.defs.get(0, [])
-        if len(ret_defs) == 1 and ret_defs[0][2] == "rv":
-            returned = strip(b.expr_rv(ret_defs[0][3]))
-            if shown is None or returned != shown:
-                problems.append("returned value %s is not the value passed to the trace exit %s" % (
-                    mir.show(returned), mir.show(shown)))
-        else:
-            problems.append("return value is not a single move of the traced result")
+            si, st_ = starts[0]
+            if len(st_[2]) < 2 or st_[2][1] != P1:
+                problems.append("the entry is traced with another state than the rule's entry state")
+            if any(i < si for i in work):
+                problems.append("work is done before the trace entry")
+            if leaf.kind == "loopback":
+                if results:
+                    problems.append("trace exit inside a loop")
+                continue
+            if len(results) != 1:
+                problems.append("count start=1 result=%d: a normal return %s the trace exit" % (len(results), "bypasses" if not results else "repeats"))
+                continue
+            ri, rt = results[0]
+            if any(i > ri for i in work):
+                problems.append("work is done after the trace exit")
+            if len(rt[2]) < 2 or rt[2][1] != leaf.ret:
+                problems.append("the value traced at the exit is not the value returned")
         if problems:
-            for pr in problems:
-                chk.violation("C19.pair", "%s %s" % (tag, pr.split(":")[0]), pr, cx.site(b))
+            for pr in sorted(set(problems)):
+                chk.violation("C19.pair", "%s %s" % (tag, pr[:60]), "rule function %s: %s" % (rest, pr), cx.site(b))
         else:
             traced += 1
-            chk.ok("C19.pair", tag, {"fn": tag, "entry_bb": S, "exit_bb": R, "returns": mir.show(shown)})
+            chk.ok("C19.pair", tag, {"rule": tag, "paths": len(v.leaves)})
     return traced, untraced
 
 
